@@ -59,4 +59,16 @@ int vx_disna##N(int job, const double* d, double* sep) \
    return info; \
 }
 DISNA(2) DISNA(3) DISNA(4)
+// Goldstone reordering helper of gm2_eigen_utils.hpp (used by both models)
+#define GOLD(N) \
+void vx_move_goldstone##N(int idx, double mass, double* v, double* z) \
+{ \
+   Eigen::Array<double,N,1> V_; Eigen::Matrix<double,N,N> Z_; \
+   for (int i = 0; i < N; i++) V_(i) = v[i]; \
+   for (int j = 0; j < N; j++) for (int i = 0; i < N; i++) Z_(i,j) = z[i + N*j]; \
+   move_goldstone_to(idx, mass, V_, Z_); \
+   for (int i = 0; i < N; i++) v[i] = V_(i); \
+   for (int j = 0; j < N; j++) for (int i = 0; i < N; i++) z[i + N*j] = Z_(i,j); \
+}
+GOLD(2) GOLD(3)
 }
